@@ -120,8 +120,13 @@ REG['C10'] = dict(
          '(np.linspace model), the width is floor(arc*H/((h0+h1)*s)), exact bilinear sampling through the sub-image equals sampling '
          'the page whenever the sample lies in the floor/ceil box (fast path = general path) and is a convex combination, every '
          'evaluation point of the cubic interpolant is admissible (flag REGENERATED from the source; kernel-checked witness that it '
-         'was not before the fix), crop always returns the configured height and is blank iff the inner computation raised. NOT '
-         'decided by proof: uniform advance along the fitted curve, perpendicularity, shift equivariance in floating point '
+         'was not before the fix), crop always returns the configured height and is blank iff the inner computation raised; '
+         'reverse_line_mapping (literal loop incl. Python negative indexing) as get_crop_inputs uses it is the chord between the '
+         'first and the last sample at fraction t/L (columns advance uniformly in the baseline frame); for a STRAIGHT baseline the '
+         'whole sampling grid is the rotation back of (left + (n-1)c/(W-1), y0 - h0 + (h0+h1)r/(H-1)), the rotation preserves '
+         'distances and right angles (uniform advance, linear rows, perpendicularity proved for straight lines; exact correspondence '
+         'of the real get_crop_inputs grid within 0.02 px). NOT '
+         'decided by proof: the same clauses for CURVED baselines (fitted curve, normals), shift equivariance in floating point '
          '(polyfit, splines, atan2, arc length, cv2 fixed-point) - judged only by a geometric oracle on the real output. Degenerate lines '
          '(vertical, point, one pixel, zero heights given as Python numbers, float/int ndarrays or NumPy scalars; directly and through the '
          'real LineCropper stage) must give an image of the configured height and never an error.',
